@@ -335,6 +335,20 @@ func (g *cfgGen) text(max int, faultName string) string {
 		n = 256 + g.r.Intn(45)
 	}
 	const al = "abcdefghijklmnopqrstuvwxyz0123456789-."
+	if g.r.Intn(3) == 0 {
+		// the same number of octets, partly in characters of two to four octets (a length counted in characters would differ)
+		multi := []string{"\u00e9", "\u00df", "\u20ac", "\U0001F600"}
+		var sb strings.Builder
+		for sb.Len() < n {
+			m := multi[g.r.Intn(len(multi))]
+			if g.r.Intn(2) == 0 && sb.Len()+len(m) <= n {
+				sb.WriteString(m)
+			} else {
+				sb.WriteByte(al[g.r.Intn(len(al))])
+			}
+		}
+		return sb.String()
+	}
 	b := make([]byte, n)
 	for i := range b {
 		b[i] = al[g.r.Intn(len(al))]
@@ -631,6 +645,8 @@ func directedCfgCases() []struct {
 	add("F5c-domain-256", func(c *cfgCase) { c.conf.Domain = strings.Repeat("a", 256) })
 	add("F5c-domain-255-ok", func(c *cfgCase) { c.conf.Domain = strings.Repeat("a", 255) })
 	add("F5c-domain-300", func(c *cfgCase) { c.conf.Domain = strings.Repeat("d", 300) })
+	add("F5c-domain-128x2-octets", func(c *cfgCase) { c.conf.Domain = strings.Repeat("\u00e9", 128) })
+	add("F5c-domain-127x2+1-octets-ok", func(c *cfgCase) { c.conf.Domain = strings.Repeat("\u00e9", 127) + "x" })
 	add("F5c-lease-200-years", func(c *cfgCase) { c.conf.LeaseDuration = "1753164h" })
 	add("F5c-lease-2^32s", func(c *cfgCase) { c.conf.LeaseDuration = "1193046h28m16s" })
 	add("F5c-lease-2^32-1s-ok", func(c *cfgCase) { c.conf.LeaseDuration = "1193046h28m15s" })
